@@ -134,6 +134,20 @@ func buildSource(t *testing.T, idx, blocks, interval, mtb int) *srcChain {
 	}
 	// A registered candidate blocked by Policy: the committee of the next epoch
 	// then depends on Policy's list of blocked accounts.
+	// Registered candidates blocked by Policy in the three blocks right before a
+	// sync point that is the last block of a committee epoch (when the interval
+	// admits one): the committee of the next epoch then depends on Policy's list
+	// of blocked accounts at exactly the point a node may jump to.
+	edge := 0
+	for q := (len(p.Raw)/interval + 1) * interval; q < blocks; q += interval {
+		if (q+1)%vchain.Epoch == 0 && q-4 >= len(p.Raw) {
+			edge = q
+			break
+		}
+	}
+	for edge > 0 && len(p.Raw) < edge-4 && p.Rejected == nil {
+		p.Step()
+	}
 	for round := 0; round < 3 && p.Rejected == nil; round++ {
 		if tx := p.BlockCandidate(); tx != nil && p.TxKinds[tx.Hash()] == "block-candidate" {
 			p.AddBlock(tx)
